@@ -52,6 +52,7 @@ func (c06) Cases(tier string, seed int64, kf *KnownFindings) []Case {
 	cs = append(cs, Case{Kind: "lit", S: "untyped-empty", Count: 4, Sub: -1})
 	cs = append(cs, Case{Kind: "lit", S: "skew-then-resent", Count: 4, Sub: -1})
 	cs = append(cs, Case{Kind: "lit", S: "ptr-key-map", Count: 4, Sub: -1})
+	cs = append(cs, Case{Kind: "lit", S: "many-containers-then-refs", Count: 4, Sub: -1})
 	cs = append(cs, Case{Kind: "faultcont", Count: 24, Sub: -1})
 	if tier == "thorough" {
 		// all histories of length <= 3 over a 12-value alphabet: 12 + 144 + 1728
@@ -247,6 +248,33 @@ func (c06) Run(c Case, env *Env) Result {
 				// back-references and must come out as the object, of its documented type
 				acc, acc2 := &zoo.Inner{A: 1, S: "acc"}, &zoo.Inner{A: 2, S: "acc2"}
 				hist = []interface{}{acc, map[interface{}]interface{}{acc: int32(1), "v": acc}, acc2, []interface{}{map[interface{}]interface{}{acc2: acc}, acc2}}
+			case "many-containers-then-refs":
+				// a stream that has carried tens of thousands of containers (objects, lists) goes on with values
+				// that refer back: to a node first sent just now, to one sent long ago, to a whole earlier value.
+				// Whatever either side keeps per container must still number them as the other side does
+				var first, mid *zoo.Inner
+				var early *zoo.SlPtr
+				for i := 0; i < 700; i++ {
+					sl := &zoo.SlPtr{V: make([]*zoo.Inner, 100)}
+					for k := range sl.V {
+						sl.V[k] = &zoo.Inner{A: int32(i*100 + k), S: "leaf"}
+					}
+					if i == 0 {
+						first = sl.V[3]
+					}
+					if i == 350 {
+						mid, early = sl.V[50], sl
+					}
+					hist = append(hist, sl)
+					if i == 41 || i == 655 {
+						fresh := &zoo.Inner{A: int32(-i), S: "fresh"}
+						hist = append(hist, &zoo.SlPtr{V: []*zoo.Inner{fresh, fresh, first}}, fresh)
+					}
+				}
+				fresh := &zoo.Inner{A: -7, S: "fresh2"}
+				hist = append(hist, &zoo.SlPtr{V: []*zoo.Inner{fresh, fresh}}, &zoo.WithInner{P: fresh, N: 1}, first, mid, early, "tail", int32(5),
+					&zoo.SlPtr{V: []*zoo.Inner{mid, fresh, first}})
+				featSet["long-history"] = true
 			case "untyped-empty":
 				// empty and nil lists travelling untyped: first inside a typed field, then (as the encoder sees
 				// it: the same empty container again) at a generic position, and the other way round
